@@ -89,98 +89,124 @@ def run(chk):
     items_s = Slicer(sym, sql, scfg.subject, jc).slice(scfg.func.body)
     stmts_s = [it.node if isinstance(it, Cond) else it for it in items_s]
     subj = scfg.subject
-    n_outs = 0
-    for how, (iso, full) in {"inner": (False, False), "left": (True, False), "full": (True, True)}.items():
-        ev = Evaluator({f"{subj}.how": how, "query.where": []})
-        ev.unroll_once = True
-        ev.skip_loops = True
-        ev.lenient = True
-        try:
-            outs = ev.run_block(stmts_s)
-        except Unsupported as u:
-            raise AnalysisError(f"C06/R2: cannot evaluate the SQL Join branch: {u}") from u
-        for ret, env, _ in outs:
-            n_outs += 1
-            tbl = env.get("table")
-            tags = all_tags(tbl) if tbl is not None else frozenset()
-            kws = {t[1]: t[2] for t in tags if t[0] == "kw"}
-            joined = any(t[0] == "callpos" and t[1] == "join" and t[2] and t[2][0] == "right_table" for t in tags)
-            chk.ob("R2", sql, scfg.func, f"sql join how={how}: isouter={kws.get('isouter')}, full={kws.get('full')}",
-                   joined and kws.get("isouter") is iso and kws.get("full") is full and kws.get("onclause") == "sym:compiled_on" or
-                   (joined and kws.get("isouter") is iso and kws.get("full") is full and str(kws.get("onclause", "")).startswith("sym:")),
-                   f"for how='{how}' the SQL join is built with isouter={kws.get('isouter')}, full={kws.get('full')} (expected {iso}, {full}) "
-                   f"{'' if joined else '- and it does not join `table` with `right_table`'}")  # fmt: skip
-            # ---- R3: what happened to the right input's WHERE
-            qw = env.get("query.where")
-            qw_tags = all_tags(qw) if qw is not None else frozenset()
-            on = env.get("compiled_on")
-            on_tags = all_tags(on) if on is not None else frozenset()
-            asserts = env.get("__asserts__", [])
-            # the right input's predicates are recognised by where they come from (`right_query.where`), in whatever way
-            # they are folded in (reduce(and_, ..), a loop with `&` / and_, extend / +=)
-            def _from_right_where(v):
-                if isinstance(v, list):
-                    return any(_from_right_where(x) for x in v)
-                if not isinstance(v, Sym):
-                    return False
-                if "right_query.where" in v.text:
-                    return True
-                for t in v.tags:
-                    if t[0] == "elem-of" and "right_query.where" in t[1]:
-                        return True
-                    if t[0] == "callpos" and any("right_query.where" in str(x) for x in t[2]):
-                        return True
-                return False
+    # the SQL Join branch interpreted on stub state (sqlsim) decides the join flags, the select list and the fate of the right
+    # input's WHERE; the partial evaluation of the branch's statements is the fallback
+    from ..interp import PyRaise as _PRj, SymbolicBranch as _SBj
+    from ..sqlsim import SqlWorld as _SW, branch_body as _bb, join_scenarios as _js
 
-            right_in_where = _from_right_where(qw)
-            right_in_on = _from_right_where(on) and any(t[0] in ("call", "binop") and (t[1] in ("reduce", "and_") or (t[0] == "binop" and t[1] == "BitAnd")) for t in on_tags)
-            if how == "inner":
-                good = right_in_where and not right_in_on
-                what = "right WHERE appended to the joined WHERE"
-            elif how == "left":
-                good = right_in_on and not right_in_where
-                what = "right WHERE conjoined into ON (unmatched left rows must survive)"
-            else:
-                good = not right_in_where and not right_in_on and any("where" in a[0] for a in asserts)
-                what = "both WHERE clauses asserted empty"
-            chk.ob("R3", sql, scfg.func, f"how={how}: {what}", good,
-                   f"for how='{how}' the right input's WHERE is handled as where+={right_in_where}, on&={right_in_on}; documented: {what}")  # fmt: skip
-    chk.floor("R2", "evaluated SQL join outcomes", n_outs, 3)
+    sql_join_decided = False
+    try:
+        jb = _bb(scfg.func, scfg.subject, "Join")
+        if jb is None:
+            raise AnalysisError("no `isinstance(nd, Join)` branch in SqlImpl.compile_ast")
+        res_j = _js(_SW(repo), jb)
+        for rule_, desc_, ok_, detail_ in res_j:
+            chk.ob(rule_, sql, scfg.func, f"sql Join interpreted: {desc_}", ok_, detail_)
+        chk.floor("R3", "SQL join scenarios", len(res_j), 30)
+        sql_join_decided = True
+    except (AnalysisError, _SBj) as e:
+        chk.undecided.append(f"R2/R3: the SQL Join branch could not be interpreted ({str(e)[:140]})")
+    except _PRj as p_:
+        sql_join_decided = True
+        chk.ob("R3", sql, scfg.func, "sql Join branch on stub state", False, f"the SQL Join branch raises {p_.name}: {p_.msg}")
+    if not sql_join_decided:
+        n_outs = 0
+        for how, (iso, full) in {"inner": (False, False), "left": (True, False), "full": (True, True)}.items():
+            ev = Evaluator({f"{subj}.how": how, "query.where": []})
+            ev.unroll_once = True
+            ev.skip_loops = True
+            ev.lenient = True
+            try:
+                outs = ev.run_block(stmts_s)
+            except Unsupported as u:
+                raise AnalysisError(f"C06/R2: cannot evaluate the SQL Join branch: {u}") from u
+            for ret, env, _ in outs:
+                n_outs += 1
+                tbl = env.get("table")
+                tags = all_tags(tbl) if tbl is not None else frozenset()
+                kws = {t[1]: t[2] for t in tags if t[0] == "kw"}
+                joined = any(t[0] == "callpos" and t[1] == "join" and t[2] and t[2][0] == "right_table" for t in tags)
+                chk.ob("R2", sql, scfg.func, f"sql join how={how}: isouter={kws.get('isouter')}, full={kws.get('full')}",
+                       joined and kws.get("isouter") is iso and kws.get("full") is full and kws.get("onclause") == "sym:compiled_on" or
+                       (joined and kws.get("isouter") is iso and kws.get("full") is full and str(kws.get("onclause", "")).startswith("sym:")),
+                       f"for how='{how}' the SQL join is built with isouter={kws.get('isouter')}, full={kws.get('full')} (expected {iso}, {full}) "
+                       f"{'' if joined else '- and it does not join `table` with `right_table`'}")  # fmt: skip
+                # ---- R3: what happened to the right input's WHERE
+                qw = env.get("query.where")
+                qw_tags = all_tags(qw) if qw is not None else frozenset()
+                on = env.get("compiled_on")
+                on_tags = all_tags(on) if on is not None else frozenset()
+                asserts = env.get("__asserts__", [])
+                # the right input's predicates are recognised by where they come from (`right_query.where`), in whatever way
+                # they are folded in (reduce(and_, ..), a loop with `&` / and_, extend / +=)
+                def _from_right_where(v):
+                    if isinstance(v, list):
+                        return any(_from_right_where(x) for x in v)
+                    if not isinstance(v, Sym):
+                        return False
+                    if "right_query.where" in v.text:
+                        return True
+                    for t in v.tags:
+                        if t[0] == "elem-of" and "right_query.where" in t[1]:
+                            return True
+                        if t[0] == "callpos" and any("right_query.where" in str(x) for x in t[2]):
+                            return True
+                    return False
+
+                right_in_where = _from_right_where(qw)
+                right_in_on = _from_right_where(on) and any(t[0] in ("call", "binop") and (t[1] in ("reduce", "and_") or (t[0] == "binop" and t[1] == "BitAnd")) for t in on_tags)
+                if how == "inner":
+                    good = right_in_where and not right_in_on
+                    what = "right WHERE appended to the joined WHERE"
+                elif how == "left":
+                    good = right_in_on and not right_in_where
+                    what = "right WHERE conjoined into ON (unmatched left rows must survive)"
+                else:
+                    good = not right_in_where and not right_in_on and any("where" in a[0] for a in asserts)
+                    what = "both WHERE clauses asserted empty"
+                chk.ob("R3", sql, scfg.func, f"how={how}: {what}", good,
+                       f"for how='{how}' the right input's WHERE is handled as where+={right_in_where}, on&={right_in_on}; documented: {what}")  # fmt: skip
+        chk.floor("R2", "evaluated SQL join outcomes", n_outs, 3)
 
     # ---- R4
     cache = repo.mod("pipe.cache")
     rs = cache.func("Cache.requires_subquery")
     guards, _ = parse_guards(sym, cache, rs)
-    for req in [r for r in REQUIRED if r[2] == "Join"]:
-        atom, scope, verb, needs_fn, why = req
-        label = f"{atom}{'(' + scope + ')' if scope else ''} x Join"
-        chk.ob("R4", cache, rs, label, any(covers(g, req) for g in guards), f"no guard covers {label}: {why}")
-    cg = [g for g in guards if "CONST" in g.atoms and g.verbs and "Join" in g.verbs]
-    chk.ob("R4", cache, rs, "CONST x Join(left/full)", bool(cg), "outer joins with a constant column (it must become NULL for unmatched rows) are no longer guarded")
-    # value level (A9): the guard must fire exactly for the null-padded side(s): both inputs of a full join, the right
-    # input of a left join.  `node.child not in self.derived_from` tells the right input apart.
-    subj_g = rs.args.args[1].arg
-    for how, is_right, want in (("inner", False, False), ("inner", True, False), ("left", False, False), ("left", True, True), ("full", False, True), ("full", True, True)):
-        fires = False
-        for g in cg:
-            ev = Evaluator({f"{subj_g}.how": how, f"{subj_g}.child": "CHILD", "self.derived_from": [] if is_right else ["CHILD"]})
-            ev.lenient = True
-            verdict = True
-            for t, pol_ in g.tests:
-                if isinstance(t, ast.Call) and dotted(t.func) == "isinstance":
-                    continue
-                try:
-                    v = ev.ev(t, dict(ev.binding))
-                except Unsupported:
-                    continue
-                if isinstance(v, Sym):
-                    continue  # depends on the columns: assume a constant column exists
-                if bool(v) != pol_:
-                    verdict = False
-            fires = fires or verdict
-        chk.ob("R4", cache, rs, f"CONST x Join how={how}, {'right' if is_right else 'left'} input: guard fires = {want}", fires == want,
-               f"for how='{how}' and a constant column in the {'right' if is_right else 'left'} input the guard {'does not fire' if want else 'fires'}: "
-               + ("the constant is inlined as a literal in the outer SELECT and stays non-NULL for unmatched rows" if want else "a join that needs no subquery is refused"))  # fmt: skip
+    # decided on the typestate exploration of the interpreted cache (every reachable state x every join kind and side, constant
+    # columns included); the parsed shape of the guards is the fallback
+    from .. import cachesim as _cs
+
+    if not _cs.report_hazards(chk, model_of(chk), "R4", ("join",), "join hazards"):
+        for req in [r for r in REQUIRED if r[2] == "Join"]:
+            atom, scope, verb, needs_fn, why = req
+            label = f"{atom}{'(' + scope + ')' if scope else ''} x Join"
+            chk.ob("R4", cache, rs, label, any(covers(g, req) for g in guards), f"no guard covers {label}: {why}")
+        cg = [g for g in guards if "CONST" in g.atoms and g.verbs and "Join" in g.verbs]
+        chk.ob("R4", cache, rs, "CONST x Join(left/full)", bool(cg), "outer joins with a constant column (it must become NULL for unmatched rows) are no longer guarded")
+        # value level (A9): the guard must fire exactly for the null-padded side(s): both inputs of a full join, the right
+        # input of a left join.  `node.child not in self.derived_from` tells the right input apart.
+        subj_g = rs.args.args[1].arg
+        for how, is_right, want in (("inner", False, False), ("inner", True, False), ("left", False, False), ("left", True, True), ("full", False, True), ("full", True, True)):
+            fires = False
+            for g in cg:
+                ev = Evaluator({f"{subj_g}.how": how, f"{subj_g}.child": "CHILD", "self.derived_from": [] if is_right else ["CHILD"]})
+                ev.lenient = True
+                verdict = True
+                for t, pol_ in g.tests:
+                    if isinstance(t, ast.Call) and dotted(t.func) == "isinstance":
+                        continue
+                    try:
+                        v = ev.ev(t, dict(ev.binding))
+                    except Unsupported:
+                        continue
+                    if isinstance(v, Sym):
+                        continue  # depends on the columns: assume a constant column exists
+                    if bool(v) != pol_:
+                        verdict = False
+                fires = fires or verdict
+            chk.ob("R4", cache, rs, f"CONST x Join how={how}, {'right' if is_right else 'left'} input: guard fires = {want}", fires == want,
+                   f"for how='{how}' and a constant column in the {'right' if is_right else 'left'} input the guard {'does not fire' if want else 'fires'}: "
+                   + ("the constant is inlined as a literal in the outer SELECT and stays non-NULL for unmatched rows" if want else "a join that needs no subquery is refused"))  # fmt: skip
     # both inputs are checked
     cs = [c for c in calls_in(join) if dotted(c.func) == "check_subquery"]
     chk.ob("R4", vb, join, "join runs check_subquery for the left and (is_right=True) the right input", len(cs) == 2 and sum(kwarg(c, "is_right") is not None for c in cs) == 1,
@@ -375,7 +401,9 @@ def _join_scenarios(chk, m):
         for order in ("asc", "desc"):
             w = World(vb)
             w.it.set_order = order
-            w.env["itertools"] = _ModuleNS({"chain": Native(lambda *a: [x for it_ in a for x in it_], "chain")})
+            from ..catalogue import _bounded_count
+
+            w.env["itertools"] = _ModuleNS({"chain": Native(lambda *a: [x for it_ in a for x in it_], "chain"), "count": _bounded_count})
             w.env["LiteralCol"] = Native(lambda v, _w=w: _w.obj("Lit", val=v), "LiteralCol")
             w.env["ColFn"] = w.env["ColName"]  # no function nodes occur in an empty condition
             w.env["split_join_cond"] = Native(lambda on: [], "split_join_cond")
@@ -405,7 +433,7 @@ def _join_scenarios(chk, m):
                     on_arg.append(pred)
                 w.env["types"] = _ModuleNS({"without_const": Native(lambda d: d, "without_const")})
                 w.env["Bool"] = Native(lambda: DT("Bool"), "Bool")
-                w.env["functools"] = _ModuleNS({"reduce": Native(lambda fn_, rest, first: first, "reduce")})
+                w.env["functools"] = _ModuleNS({"reduce": Native(lambda fn_, seq, *first: first[0] if first else next(iter(seq), None), "reduce")})
                 w.env["operator"] = _ModuleNS({"and_": None})
                 w.env["Ftype"] = _ModuleNS({"ELEMENT_WISE": "EW"})
             got = w.run(f, [left, right, list(on_arg), "inner"], {"suffix": kw.get("suffix")})
